@@ -57,8 +57,17 @@ ChildZone(d) == (d :> {"SOA", "NS", "A"}) @@ (ChildHost(d) :> {"A"})
 
 Cuts == { d \in AuthOwners(zone, Apex) : IsCut(zone, Apex, d) }
 
+(* A wildcard owner's NSEC (and its RRSIG) can be shown under any name the   *)
+(* wildcard matches: the signature still verifies (RFC 4035 5.3.2).  The one  *)
+(* that matters is an expansion that sorts before the wildcard itself, e.g.   *)
+(* "!.<parent>": read naively it would span the wildcard and all it answers.  *)
+BANG == <<33>>
+Expansions ==
+    { [owner |-> <<BANG>> \o Parent(r.owner), next |-> r.next, types |-> r.types, exp |-> TRUE] :
+        r \in { x \in chain : IsWildcard(x.owner) } }
+
 \* every genuine signed NSEC record an attacker can get hold of
-Material == chain \cup ParentSide \cup UNION { Chain(ChildZone(d), d) : d \in Cuts }
+Material == chain \cup ParentSide \cup UNION { Chain(ChildZone(d), d) : d \in Cuts } \cup Expansions
 
 (* Truth in the name space: below a cut (and at it, except for DS) the child  *)
 (* zone decides, elsewhere this zone does.                                    *)
